@@ -12,6 +12,9 @@ MOD = "c19"
 SPEC = "Merge"
 
 QUIRK_WHAT = {
+    "SkipWiderSecondVec": "merge(m1, m2) loses the upper bytes m2 wrote through a VECTOR-VALUED pointer key when both maps have "
+                          "an item for that key and m1's is narrower (the vector branch of merge() still joins at m1's size "
+                          "and the second loop skips the key; the plain-pointer case was repaired in 03f2317)",
     "VecStoreDropsItem": "a store through a vector-valued pointer deletes the map items of every location it may write "
                          "(mapper._Mem_write: `del self.__map[l]`) without keeping the bytes a narrower store does not "
                          "cover: they stay in the map's memory but no item holds them, and merge() only walks items, so the "
